@@ -950,7 +950,14 @@ class Builder:
             if self.v is not None and rng.random() < 0.7:
                 # the running state is an eigenvector: all but one outcome impossible
                 u = unitary_first_col(self.v, rng)
-            groups = [g for g in np.array_split(rng.permutation(d), min(m, d))]
+            k = min(m, d)
+            perm = rng.permutation(d)
+            if rng.random() < 0.5:
+                groups = [g for g in np.array_split(perm, k)]
+            else:
+                # uneven split: eigenspaces of every multiplicity 1..d-k+1 occur
+                cuts = np.sort(rng.choice(np.arange(1, d), size=k - 1, replace=False)) if k > 1 else []
+                groups = [g for g in np.split(perm, cuts)]
             Ms = [sum(np.outer(u[:, i], u[:, i].conj()) for i in g) for g in groups]
             # m > d: split one projector into weighted copies so that the outcome count is kept
             while len(Ms) < m:
@@ -1206,11 +1213,23 @@ def run_gm_case(ctx, hs, J, c_sys, shape_name, comp):
     rho = tst["rho"]
     m = int(rng.integers(2, 5))
     kind, Ms, _ = B.povm_ops(m)
-    if rng.random() < 0.15:
+    r = rng.random()
+    if r < 0.15:
         # exactly diagonal elements (degenerate eigenvalues exactly equal as floats)
         kind = "diagonal"
         w = rng.multinomial(8, np.ones(m) / m, size=d) / 8.0  # rows sum to one exactly; repeated values are exactly equal
         Ms = [np.diag(w[:, x]).astype(complex) for x in range(m)]
+    elif r < 0.35:
+        # commuting elements with eigenspaces of every multiplicity 1..d in a random basis: the levels are partitioned
+        # into k classes, each class has one weight row (multiples of 1/8, so distinct eigenvalues are >= 1/8 apart), and
+        # the rotation makes the repeated eigenvalues equal only up to rounding
+        kind = "commuting"
+        k = int(rng.integers(1, d + 1))
+        cls = rng.permutation(np.concatenate([np.arange(k), rng.integers(0, k, size=d - k)]))
+        wk = rng.multinomial(8, np.ones(m) / m, size=k) / 8.0
+        u = ref.rand_unitary(d, rng)
+        Ms = [(u * wk[cls, x]) @ u.conj().T for x in range(m)]
+        Ms = [(M + M.conj().T) / 2 for M in Ms]
     povm = gen.make_povm(c_sys, Ms, is_physicality_required=bool(rng.random() < 0.7))
     born = np.array([np.trace(M @ rho).real for M in Ms])
     info = {"shape": shape_name, "povm_kind": kind, "m": m, "state": B.descr[0]}
